@@ -100,7 +100,15 @@ static void format_operand(FILE *out, const DecodedInstruction *instr, int idx,
                 const char *str = nvm_get_string(mod, instr->operands[idx].u32);
                 if (str) {
                     fprintf(out, " %u", instr->operands[idx].u32);
-                    fprintf(out, "  ; \"%s\"", str);
+                    /* annotation only: keep it on one line (a raw newline would
+                     * end the comment and the rest would be parsed as code) */
+                    fprintf(out, "  ; \"");
+                    for (const char *c = str; *c; c++) {
+                        if (*c == '\n') fputs("\\n", out);
+                        else if (*c == '\r') fputs("\\r", out);
+                        else fputc(*c, out);
+                    }
+                    fprintf(out, "\"");
                     return;
                 }
             }
